@@ -250,7 +250,11 @@ func (g *GroupWorld) bootstrap() {
 		// leftovers of a previous controller lifetime / operators
 		pr := w.prof
 		annotateToo := s.Chance(pr.PAnnotate)
-		switch s.Pick(12, 2+int(pr.PExtTaint*8), 1+int(pr.PCordon*4), 1+int(pr.PAnnotate*4), 1+int(pr.PForceTaint*4)) {
+		healthy := 12
+		if g.cfg.BigGroup {
+			healthy = 3 // mostly leftovers of an earlier lifetime: large reap batches
+		}
+		switch s.Pick(healthy, 2+int(pr.PExtTaint*8), 1+int(pr.PCordon*4), 1+int(pr.PAnnotate*4), 1+int(pr.PForceTaint*4)) {
 		case 1:
 			stamp := now.Add(-time.Duration(s.Intn(int(g.cfg.Hard/time.Second)+120)) * time.Second).Unix()
 			node.Spec.Taints = append(node.Spec.Taints, v1.Taint{Key: escTaint, Value: strconv.FormatInt(stamp, 10), Effect: v1.TaintEffectNoSchedule})
@@ -538,6 +542,50 @@ func (g *GroupWorld) schedule() {
 	}
 }
 
+// strayBind: pods without any selector (the default group's) can be scheduled onto ANY schedulable node,
+// including another group's. The other group's accounting ignores them; its emptiness test must too.
+func (g *GroupWorld) strayBind() {
+	if !g.cfg.IsDefault || len(g.w.groups) < 2 {
+		return
+	}
+	s := g.s("stray")
+	for _, p := range g.groupPods() {
+		if p.Spec.NodeName != "" {
+			continue
+		}
+		hit := s.Chance(0.15)
+		pick := s.U32()
+		if !hit {
+			continue
+		}
+		var cands []*v1.Node
+		for _, name := range g.w.kube.sortedNodeNames() {
+			n := g.w.kube.nodes[name]
+			if o := g.w.kube.nodeOwner[name]; o == g.name || o == g.w.cfg.StrayExclude || n.Spec.Unschedulable {
+				continue
+			}
+			cands = append(cands, n)
+		}
+		if len(cands) == 0 {
+			continue
+		}
+		n := cands[int(pick%uint32(len(cands)))]
+		np := p.DeepCopy()
+		np.Spec.NodeName = n.Name
+		np.Status.Phase = v1.PodRunning
+		np.Status.Conditions = []v1.PodCondition{{Type: v1.PodScheduled, Status: v1.ConditionTrue}}
+		g.w.kube.putPod(np, "")
+		g.w.stats.World["default-pod-bound-to-other-groups-node"]++
+		dur, _ := time.ParseDuration(p.Annotations["sim/duration"])
+		name := p.Name
+		g.w.after(dur, "pod-done", func() {
+			if _, ok := g.w.kube.pods[name]; ok {
+				g.w.kube.deletePod(name)
+			}
+		})
+	}
+}
+
 // reconcile is the ASG's own control loop.
 func (g *GroupWorld) reconcile() {
 	a := g.w.aws
@@ -612,6 +660,7 @@ func (g *GroupWorld) tick() {
 	}
 	g.reconcile()
 	g.schedule()
+	g.strayBind()
 	if w.cfg.Actors["operator"] && s.Chance(w.cfg.OperatorP) {
 		g.operatorAction(g.s("op"), "")
 	}
@@ -682,7 +731,7 @@ func (g *GroupWorld) pickNode(s *Stream, prefer string) *v1.Node {
 	return nodes[s.Intn(len(nodes))]
 }
 
-var extTaintValues = []string{"", "0", "-5", "abc", "99999999999999999999", "9223372036854775807", "1e9", "946684800.5", " 946684800"}
+var extTaintValues = []string{"", "0", "-5", "abc", "99999999999999999999", "9223372036854775807", "1e9", "946684800.5", " 946684800", "0x10", "0b1010", "0o17", "946_684_700", "0946684700", "+946684700", "0x386D4380"}
 
 func (g *GroupWorld) operatorAction(s *Stream, prefer string) {
 	w := g.w
